@@ -424,6 +424,8 @@ class C03(HistConc):
         j += simple_jobs("dbg", ["uninit", "seed=%d" % seed, "maxlen=8"], p)
         j += simple_jobs("rel", ["uninit", "seed=%d" % seed, "maxlen=8"], p)
         j += uninitpoll_jobs(seed, p, big)
+        # uniqueness decisions must look at the whole counter (counts that are 1 modulo 2^32, 2^16, ...)
+        j += [Job(m, ["wide", "seed=%d" % seed], san_props=p, crash_props=p, timeout=600) for m in ("dbg", "rel")]
         return j
     assumptions = COMMON_ASSUME + [
         "schedule half: Miri's race detector / ThreadSanitizer decide whether every former sharer's access happens-before the granted write; "
@@ -518,6 +520,8 @@ class C09(HistConc):
         j += simple_jobs("dbg", ["faults", "seed=%d" % seed, "part=clone"], p)
         j += simple_jobs("dbg", ["faults", "seed=%d" % seed, "part=drop"], p)
         j += simple_jobs("rel", ["faults", "seed=%d" % seed, "part=drop"], p)
+        # sole ownership must be decided on the whole counter (counts that are 1 modulo 2^32, 2^16, ...)
+        j += [Job(m, ["wide", "seed=%d" % seed], san_props=p, crash_props=p, timeout=600) for m in ("dbg", "rel")]
         return j
     assumptions = COMMON_ASSUME + ["schedule half: identity registry decides 'handed out at most once / destroyed exactly once'; race detectors decide ordering"]
 
